@@ -437,13 +437,13 @@ def _ret_and(call, x, y):
         if leaf[0] == "int":
             return [(st, bool(leaf[1]))]
         if leaf[0] == "term":
-            v = I.decide(st, leaf[1], "bool")
+            v = I.decide(st, leaf[1])
             if v is not None:
                 return [(st, v)]
             res = []
             for b in (True, False):
                 ns = st.clone()
-                if I.assume(ns, leaf[1], b, "bool"):
+                if I.assume(ns, leaf[1], b):
                     res.append((ns, b))
             return res
         return None
@@ -678,3 +678,39 @@ def ax_fn_call(call):
     keys = tuple(call.arg_key(a) for a in args)
     who = call.arg_key(call.args[0])
     return call.ret_leaf(("term", ("app", "Fn::call", who) + keys))
+
+
+# ------------------------------------------------------------------------------ pure foreign functions
+# Results are uninterpreted atoms keyed by the abstract arguments, so two evaluations on the
+# same arguments agree (pure-predicate facts).
+
+def _pure(name, nargs=None):
+    def ax(call):
+        return call.ret_app(name, nargs)
+    return ax
+
+
+for _n, _d in (
+    ("HeaderMap::<T>::get", "lookup of the first value for a field name (pure)"),
+    ("HeaderMap::<T>::contains_key", "membership of a field name (pure)"),
+    ("HeaderMap::<T>::get_all", "all values for a field name (pure)"),
+    ("HeaderMap::<T>::is_empty", "no fields (pure)"),
+    ("HeaderMap::<T>::iter", "iterator over all fields in order (pure)"),
+    ("HeaderValue::to_str", "Ok(str) iff the value is visible ASCII (pure)"),
+    ("HeaderValue::as_bytes", "raw bytes of the value (pure)"),
+    ("<impl str>::parse", "FromStr::from_str (pure)"),
+    ("<impl str>::trim", "trimmed subslice (pure)"),
+    ("<impl str>::as_bytes", "bytes of the str (pure)"),
+    ("Uri::host", "host component (pure)"),
+    ("Uri::authority", "authority component (pure)"),
+    ("Uri::scheme", "scheme component (pure)"),
+    ("Uri::path_and_query", "path-and-query component (pure)"),
+    ("Authority::host", "host of the authority (pure)"),
+    ("PathAndQuery::as_str", "string form (pure)"),
+    ("<impl usize>::from_str_radix", "parse in the given radix (pure)"),
+    ("from_utf8", "str::from_utf8 (pure)"),
+    ("Cursor::<T>::position", "current position (pure)"),
+    ("Cursor::<T>::get_ref", "underlying buffer (pure)"),
+):
+    AXIOMS[_n] = _pure(_n)
+    AXIOM_DOC[_n] = _d
